@@ -369,3 +369,27 @@ pub fn collisions(run: &Run, section: &str, f: &(dyn Fn(&str, &mut Local) -> boo
         }
     });
 }
+
+/// all (head, tail) pairs: every first character of a canonical decomposition followed by every character that occurs
+/// later in one (all composing and non-composing combinations), in two templates
+pub fn composing_pairs(run: &Run, section: &str, f: &(dyn Fn(&str, &mut Local) -> bool + Sync)) {
+    let p = pools();
+    run.par(section, true, |tid, n, l| {
+        for (i, a) in p.compose_head.iter().enumerate() {
+            if i % n != tid {
+                continue;
+            }
+            if run.stopped() {
+                return;
+            }
+            for b in p.compose_tail.iter() {
+                for s in [format!("{a}{b}"), format!("x{a}{b}{b}y")] {
+                    l.cases += 1;
+                    if !f(&s, l) {
+                        return;
+                    }
+                }
+            }
+        }
+    });
+}
